@@ -196,8 +196,9 @@ Definition ext_elem {B} (h : Z -> list Z -> M B) (bs : list Z) : PR (Z * B) :=
 
 Definition h_raw (t : Z) (pl : list Z) : M (list Z) := mret pl.
 
-(* messages.py 630-636 / 935-944 / 1307-1315 / 1990-1996 / 2072-2074:
-   p2 = Parser(...); while p2.getRemainingLength(): TLSExtension().parse(p2) *)
+(* p2 = Parser(...); while p2.getRemainingLength(): TLSExtension().parse(p2)
+   -- messages.py ClientHello 634-636, ServerHello, CertificateRequest (1.3), EncryptedExtensions,
+   NewSessionTicket; all but NewSessionTicket are followed by a duplicate test (below) *)
 Definition parse_ext_list_with {B} (h : Z -> list Z -> M B) (bs : list Z) : M (list (Z * B)) :=
   loop_all (ext_elem h) bs.
 Definition parse_ext_list (bs : list Z) : M (list (Z * list Z)) :=
@@ -233,6 +234,12 @@ Definition reject_duplicates {B} (exts : list (Z * B)) : M (list (Z * B)) :=
   if has_dup (map fst exts) then merr DecodeError else mret exts.
 Definition parse_client_hello_exts (bs : list Z) : M (list (Z * summ)) :=
   exts <~ parse_ext_list_with h_client_hello bs ;; reject_duplicates exts.
+(* EncryptedExtensions.parse 2006-2012 and CertificateRequest._parse_tls13 1316-1325 (since
+   7769c7a): the same extension loop followed by the same duplicate test.  The loops that still
+   have NO duplicate test -- NewSessionTicket.parse 2088-2090 and the per-entry extension list of
+   CertificateEntry.parse 1113-1117 -- are parse_ext_list / lencheck_loop (ext_elem h_raw). *)
+Definition parse_ext_list_nodup (bs : list Z) : M (list (Z * list Z)) :=
+  exts <~ parse_ext_list bs ;; reject_duplicates exts.
 
 (* ---- certificate lists (messages.py) ----------------------------------------- *)
 Section Cert.
